@@ -59,7 +59,7 @@ pub fn source(case: &str) -> String {
       // a code line with a trailing comment that goes on with statement-like text after a semicolon
       "T" => { let (v, st) = rest.split_once(':').unwrap(); out.push_str(&stmt_src(st)); out.push_str(&if n % 2 == 0 { format!(" -- set once; {} = 7\n\n", v) } else { format!(" // later; {} += 1\n\n", v) }); }
       "F" => { let (name, body) = rest.split_once(':').unwrap();
-               let tag = match name { "-" => "mech".to_string(), "!" => "mech:disabled".to_string(), "#" => "mech:hidden".to_string(), "%" => "mech{output: false}".to_string(), nm => format!("mech:{}", nm) };
+               let tag = match name { "-" => "mech".to_string(), "!" => "mech:disabled".to_string(), "#" => "mech:hidden".to_string(), "%" => "mech{output: false}".to_string(), nm => format!("mech:{}", nm.replace('~', ":")) };   // `~` in a case line stands for a colon inside the name
                out.push_str(&format!("```{}\n", tag));
                for s in body.split('|') { out.push_str(&stmt_src(s)); out.push('\n'); }
                out.push_str("```\n\n"); }
@@ -89,7 +89,7 @@ pub fn run(src: &str, names: &[String]) -> String {
   let subs = intrp.sub_interpreters.borrow();
   let mut parts: Vec<String> = vec![];
   for nm in names {
-    let id = hash_str(nm);
+    let id = hash_str(&nm.replace('~', ":"));
     if let Some(s) = subs.get(&id) { parts.push(format!("ns{}{{{}}}", nm, snapshot(s))); }
   }
   parts.sort();
@@ -130,7 +130,8 @@ pub fn generate(seed: u64, thorough: bool, sink: &mut Sink) -> Vec<String> {
   let prose_kinds = ["title", "section", "para", "list", "quote", "break", "table", "code", "comment",
     "code-bare", "code-bare-def", "code-tilde", "code-tilde-lang", "code-ebnf", "code-shell"];
   // names of code blocks; several begin with letters of the tag prefix `mech:` or differ only by such a prefix
-  let all_names = ["alpha", "beta", "gamma", "calc", "alc", "c", "me", "h2", "ex", "x"];
+  // … and names that contain colons themselves and share their first or last segment (`~` stands for the colon)
+  let all_names = ["alpha", "beta", "gamma", "calc", "alc", "c", "me", "h2", "ex", "x", "model~a", "model~b", "fig~one~x", "fig~two~x", "alpha~x"];
   for _ in 0..n {
     let len = 3 + rng.below(if thorough { 14 } else { 9 }) as usize;
     let mut main_vars: Vec<String> = vec![]; let mut main_muts: Vec<String> = vec![];
